@@ -3,7 +3,7 @@
    given enough fuel / recursion depth -- for the source as repaired (recursion on a non-prime exact root). *)
 From Coq Require Import ZArith Znumtheory Zpow_facts Lia List Bool.
 Require Import C12.gen.Tables.
-From C12 Require Import PrimeB Model ProofsSweep ProofsPrimes16 ProofsFactor ProofsPower.
+From C12 Require Import PrimeB Model ProofsSweep ProofsPPTable ProofsFactor ProofsPower.
 Import ListNotations.
 Local Open Scope Z_scope.
 
@@ -173,18 +173,22 @@ Proof.
 Qed.
 
 (* the shape of the small-prime table, from the sweep of ProofsPrimes16 *)
+Local Notation FT := (filter primeb (Zseq 0 PPLEN)).
+Lemma FT_head : list_eqb FT (2 :: tl FT) = true. Proof. vm_compute. reflexivity. Qed.
+Lemma FT_tail : list_eqb (tl PP_PRIMES) (tl FT ++ [0]) = true. Proof. vm_compute. reflexivity. Qed.
+Lemma FT_nonempty : (match tl FT with [] => false | _ => true end) = true. Proof. vm_compute. reflexivity. Qed.
+
 Lemma table_shape : exists L, tl PP_PRIMES = L ++ [0] /\ L <> [] /\ Forall prime L
   /\ (forall p, In p L -> p < SMALLEST_OMITTED_PRIME)
   /\ (forall p, prime p -> 2 < p < SMALLEST_OMITTED_PRIME -> In p L).
 Proof.
   destruct pp_primes_correct as (E & Hin & Hall).
-  set (F := filter primeb (Zseq 0 PPLEN)) in *.
-  assert (HF : F = 2 :: tl F) by (vm_compute; reflexivity).
-  exists (tl F). split; [rewrite E, HF; reflexivity|]. split; [vm_compute; discriminate|].
-  assert (Hsub : forall p, In p (tl F) -> In p PP_PRIMES /\ p <> 0).
-  { intros p Hp. assert (HpF : In p F) by (rewrite HF; right; exact Hp). split.
+  pose proof (list_eqb_eq _ _ FT_head) as HF. pose proof (list_eqb_eq _ _ FT_tail) as HT.
+  exists (tl FT). split; [exact HT|]. split; [intro E0; pose proof FT_nonempty as N; rewrite E0 in N; discriminate|].
+  assert (Hsub : forall p, In p (tl FT) -> In p PP_PRIMES /\ p <> 0).
+  { intros p Hp. assert (HpF : In p FT) by (rewrite HF; right; exact Hp). split.
     - rewrite E. apply in_or_app. left. exact HpF.
-    - unfold F in HpF. apply filter_In in HpF. destruct HpF as [_ Hpb]. apply primeb_spec in Hpb. pose proof (prime_ge_2 _ Hpb). lia. }
+    - apply filter_In in HpF. destruct HpF as [_ Hpb]. apply primeb_spec in Hpb. pose proof (prime_ge_2 _ Hpb). lia. }
   split; [|split].
   - apply Forall_forall. intros p Hp. destruct (Hsub p Hp) as [H1 H2]. destruct (Hin p H1) as [->|[Hpr _]]; [congruence|exact Hpr].
   - intros p Hp. destruct (Hsub p Hp) as [H1 H2]. destruct (Hin p H1) as [->|[_ Hlt]]; [congruence|exact Hlt].
